@@ -33,6 +33,7 @@ use lightning_signer::bitcoin::secp256k1::ecdsa::Signature;
 use lightning_signer::bitcoin::Txid;
 use lightning_signer::channel::{ChannelId, ChannelSlot};
 use lightning_signer::util::test_utils::key::make_test_pubkey;
+use lightning_signer::lightning::sign::ChannelSigner;
 use lightning_signer::lightning::types::payment::PaymentHash;
 use lightning_signer::node::{Node, NodeMonitor, SpendType};
 use lightning_signer::util::test_utils::*;
@@ -53,6 +54,11 @@ pub enum Req {
     /// with_channel: sign the next counterparty commitment with one outgoing HTLC of PAY_SAT for the
     /// payment hash approved during setup (read-modify-write of the node ledger: validate..apply)
     PayCp(usize),
+    /// like PayCp through the phase-1 entry point (transaction + witness scripts supplied by the caller)
+    PayCp1(usize),
+    /// with_channel: validate holder commitment 1 carrying one outgoing HTLC of PAY_SAT for the approved
+    /// hash and revoke commitment 0 (the revocation re-validates and applies the payment)
+    PayHv(usize),
     /// with_channel_base: read a per-commitment point
     Point(usize),
     Forget(usize),
@@ -80,7 +86,7 @@ impl Req {
     /// request kind in the generated lock table
     pub fn kind(&self) -> &'static str {
         match self {
-            Req::Validate(_) | Req::SignHolder(_) | Req::SignCp(_) | Req::PayCp(_) => "channel_request",
+            Req::Validate(_) | Req::SignHolder(_) | Req::SignCp(_) | Req::PayCp(_) | Req::PayCp1(_) | Req::PayHv(_) => "channel_request",
             Req::Point(_) => "channel_base_request",
             Req::Forget(_) | Req::ForgetDb(_) => "forget_channel",
             Req::Balance => "channel_balance",
@@ -103,6 +109,8 @@ impl Req {
             Req::SignHolder(c) => format!("req {} signholder {}", tid, c),
             Req::SignCp(c) => format!("req {} signcp {}", tid, c),
             Req::PayCp(c) => format!("req {} paycp {}", tid, c),
+            Req::PayCp1(c) => format!("req {} paycp1 {}", tid, c),
+            Req::PayHv(c) => format!("req {} payhv {}", tid, c),
             Req::Point(c) => format!("req {} point {}", tid, c),
             Req::Forget(c) => format!("req {} forget {}", tid, c),
             Req::Balance => format!("req {} balance", tid),
@@ -128,6 +136,8 @@ impl Req {
             "signholder" => Req::SignHolder(arg()? as usize),
             "signcp" => Req::SignCp(arg()? as usize),
             "paycp" => Req::PayCp(arg()? as usize),
+            "paycp1" => Req::PayCp1(arg()? as usize),
+            "payhv" => Req::PayHv(arg()? as usize),
             "point" => Req::Point(arg()? as usize),
             "forget" => Req::Forget(arg()? as usize),
             "balance" => Req::Balance,
@@ -161,6 +171,88 @@ pub struct Scenario {
 pub enum Sched {
     Random,
     Pct,
+    /// deterministic single-preemption schedule: the seed encodes (first thread, point kind, index):
+    /// thread `first` runs alone up to its k-th switch point (k-th lock release, or k-th switch point
+    /// of any kind), then the other threads run until they finish or block, then `first` continues
+    Preempt,
+}
+
+pub fn preempt_code(first: usize, all_points: bool, at: usize) -> u64 {
+    (first as u64) * 100_000 + if all_points { 50_000 } else { 0 } + at as u64
+}
+
+struct PreemptScheduler {
+    first_task: usize,
+    first_name: String,
+    at: usize,
+    all_points: bool,
+    phase: u8,
+    count: usize,
+    main_blocked: bool,
+    executed: bool,
+    points: Arc<std::sync::atomic::AtomicUsize>,
+    drained: Arc<std::sync::Mutex<Vec<lightning_signer::verif_sync::LockEvent>>>,
+    active: Arc<std::sync::atomic::AtomicBool>,
+}
+
+impl shuttle::scheduler::Scheduler for PreemptScheduler {
+    fn new_execution(&mut self) -> Option<shuttle::scheduler::Schedule> {
+        if self.executed {
+            None
+        } else {
+            self.executed = true;
+            Some(shuttle::scheduler::Schedule::new(0))
+        }
+    }
+    fn next_task(
+        &mut self,
+        runnable: &[shuttle::scheduler::TaskId],
+        current: Option<shuttle::scheduler::TaskId>,
+        _is_yielding: bool,
+    ) -> Option<shuttle::scheduler::TaskId> {
+        use std::sync::atomic::Ordering;
+        let ids: Vec<usize> = runnable.iter().map(|t| usize::from(*t)).collect();
+        if self.active.load(Ordering::SeqCst) {
+            let evs = tap_take();
+            self.drained.lock().unwrap().extend(evs);
+        }
+        if !self.main_blocked {
+            if ids.contains(&0) {
+                return Some(0.into());
+            }
+            self.main_blocked = true;
+        }
+        let a = self.first_task;
+        if self.phase == 0 {
+            if current.map(usize::from) == Some(a) && ids.contains(&a) {
+                let is_point = self.all_points || {
+                    let d = self.drained.lock().unwrap();
+                    d.iter().rev().find(|e| e.thread == self.first_name).map(|e| e.kind == LockEventKind::Released).unwrap_or(false)
+                };
+                if is_point {
+                    if self.count == self.at {
+                        self.phase = 1;
+                    }
+                    self.count += 1;
+                    self.points.store(self.count, Ordering::SeqCst);
+                }
+            }
+            if self.phase == 0 && ids.contains(&a) {
+                return Some(a.into());
+            }
+        }
+        let pick = ids
+            .iter()
+            .copied()
+            .filter(|i| *i != 0 && *i != a)
+            .min()
+            .or_else(|| if ids.contains(&a) { Some(a) } else { None })
+            .unwrap_or(ids[0]);
+        Some(pick.into())
+    }
+    fn next_u64(&mut self) -> u64 {
+        0
+    }
 }
 
 /// one lock event with the lock already classified
@@ -192,13 +284,19 @@ pub struct RunResult {
     pub replies: Vec<(usize, usize, String)>,
     pub final_state: String,
     pub trace: Vec<Ev>,
+    /// Preempt scheduler: number of switch points of the first thread that were counted
+    pub points: usize,
+    /// per thread and request index: held->acquired class pairs observed (class level)
+    pub req_edges: Vec<(usize, usize, String, String)>,
 }
 
 struct World {
     node_ctx: TestNodeContext,
     chans: Vec<TestChannelContext>,
     /// prepared commitment 1 with counterparty signatures, per channel
-    commits: Vec<(TestCommitmentTxContext, Signature, Vec<Signature>)>,
+    commits: Vec<Option<(TestCommitmentTxContext, Signature, Vec<Signature>)>>,
+    /// prepared commitment 1 with one outgoing HTLC for the approved payment hash, per channel
+    pay_commits: Vec<Option<(TestCommitmentTxContext, Signature, Vec<Signature>)>>,
     onchain: (bitcoin::Transaction, TestFundingTxContext),
     /// the stub's context (for setup_channel)
     stub: Option<TestChannelContext>,
@@ -251,18 +349,135 @@ fn add_block_with(w_node: &Arc<Node>, ctr: &std::sync::atomic::AtomicU32, txs: V
     (block, match r { Ok(()) => "ok".into(), Err(e) => format!("err:{:?}", e) })
 }
 
+/// A persister without a lock of the signer's kind that keeps the set of stored channel ids and, like
+/// the real stores, refuses to create a channel entry that already exists (so a lookup/insert race of
+/// `new_channel` shows up as the "channel was in storage but not in memory" panic of the node).
+pub struct TrackingPersister {
+    channels: std::sync::Mutex<BTreeSet<Vec<u8>>>,
+}
+
+impl lightning_signer::SendSync for TrackingPersister {}
+
+mod tracking {
+    use super::TrackingPersister;
+    use lightning_signer::bitcoin::secp256k1::PublicKey;
+    use lightning_signer::chain::tracker::ChainTracker;
+    use lightning_signer::channel::{Channel, ChannelId, ChannelStub};
+    use lightning_signer::monitor::ChainMonitor;
+    use lightning_signer::node::{NodeConfig, NodeState};
+    use lightning_signer::persist::{model, ChainTrackerListenerEntry, Error, Persist};
+    use lightning_signer::policy::validator::ValidatorFactory;
+    use std::sync::Arc;
+
+    #[allow(unused_variables)]
+    impl Persist for TrackingPersister {
+        fn new_node(&self, node_id: &PublicKey, config: &NodeConfig, state: &NodeState) -> Result<(), Error> {
+            Ok(())
+        }
+        fn update_node(&self, node_id: &PublicKey, state: &NodeState) -> Result<(), Error> {
+            Ok(())
+        }
+        fn delete_node(&self, node_id: &PublicKey) -> Result<(), Error> {
+            Ok(())
+        }
+        fn new_channel(&self, node_id: &PublicKey, stub: &ChannelStub) -> Result<(), Error> {
+            if self.channels.lock().unwrap().insert(stub.id0.as_slice().to_vec()) {
+                Ok(())
+            } else {
+                Err(Error::AlreadyExists(format!("channel {}", stub.id0)))
+            }
+        }
+        fn delete_channel(&self, node_id: &PublicKey, channel_id: &ChannelId) -> Result<(), Error> {
+            self.channels.lock().unwrap().remove(channel_id.as_slice());
+            Ok(())
+        }
+        fn new_tracker(&self, node_id: &PublicKey, tracker: &ChainTracker<ChainMonitor>) -> Result<(), Error> {
+            Ok(())
+        }
+        fn update_tracker(&self, node_id: &PublicKey, tracker: &ChainTracker<ChainMonitor>) -> Result<(), Error> {
+            Ok(())
+        }
+        fn get_tracker(
+            &self,
+            node_id: PublicKey,
+            validator_factory: Arc<dyn ValidatorFactory>,
+        ) -> Result<(ChainTracker<ChainMonitor>, Vec<ChainTrackerListenerEntry>), Error> {
+            Err(Error::Internal("get_tracker unimplemented".to_string()))
+        }
+        fn update_channel(&self, node_id: &PublicKey, channel: &Channel) -> Result<(), Error> {
+            Ok(())
+        }
+        fn get_channel(&self, node_id: &PublicKey, channel_id: &ChannelId) -> Result<model::ChannelEntry, Error> {
+            Err(Error::Internal("get_channel unimplemented".to_string()))
+        }
+        fn get_node_channels(&self, node_id: &PublicKey) -> Result<Vec<(ChannelId, model::ChannelEntry)>, Error> {
+            Ok(Vec::new())
+        }
+        fn update_node_allowlist(&self, node_id: &PublicKey, allowlist: Vec<String>) -> Result<(), Error> {
+            Ok(())
+        }
+        fn get_node_allowlist(&self, node_id: &PublicKey) -> Result<Vec<String>, Error> {
+            Ok(Vec::new())
+        }
+        fn get_nodes(&self) -> Result<Vec<(PublicKey, model::NodeEntry)>, Error> {
+            Ok(Vec::new())
+        }
+        fn clear_database(&self) -> Result<(), Error> {
+            Ok(())
+        }
+        fn signer_id(&self) -> [u8; 16] {
+            [0x20; 16]
+        }
+    }
+}
+
+const PEER: [u8; 33] = [2u8; 33];
 const CHANNEL_VALUE: u64 = 3_000_000;
 /// value of the outgoing HTLC of a `paycp` request; the keysend approved during setup covers ONE of them
 const PAY_SAT: u64 = 50_000;
 const PAY_HASH: [u8; 32] = [0x77; 32];
 
+fn make_node_ctx() -> TestNodeContext {
+    use lightning_signer::bitcoin::secp256k1::Secp256k1;
+    use lightning_signer::node::NodeServices;
+    use lightning_signer::policy::simple_validator::SimpleValidatorFactory;
+    use lightning_signer::util::clock::StandardClock;
+    let mut seed = [0u8; 32];
+    seed.copy_from_slice(&hex::decode(TEST_SEED[1]).unwrap());
+    let services = NodeServices {
+        validator_factory: Arc::new(SimpleValidatorFactory::new()),
+        starting_time_factory: make_genesis_starting_time_factory(TEST_NODE_CONFIG.network),
+        persister: Arc::new(TrackingPersister { channels: std::sync::Mutex::new(BTreeSet::new()) }),
+        clock: Arc::new(StandardClock()),
+        trusted_oracle_pubkeys: vec![],
+    };
+    let node = Arc::new(Node::new(TEST_NODE_CONFIG, &seed, vec![], services));
+    TestNodeContext { node, secp_ctx: Secp256k1::signing_only() }
+}
+
+/// a channel stub created through `new_channel(dbid, peer)`, with matching counterparty keys and the
+/// setup of test_utils' `test_chan_ctx`
+fn chan_ctx_by_dbid(node_ctx: &TestNodeContext, dbid: u64) -> TestChannelContext {
+    let (channel_id, _) = node_ctx.node.new_channel(dbid, &PEER, &node_ctx.node).expect("new_channel");
+    let mut setup = make_test_channel_setup();
+    setup.channel_value_sat = CHANNEL_VALUE;
+    setup.push_value_msat = 0;
+    let counterparty_keys = make_test_counterparty_keys(node_ctx, &channel_id, CHANNEL_VALUE);
+    TestChannelContext { channel_id, setup, counterparty_keys }
+}
+
 fn build_world(sc: &Scenario) -> World {
-    let node_ctx = test_node_ctx(1);
+    let node_ctx = make_node_ctx();
     let mut chans = Vec::new();
     let mut commits = Vec::new();
+    let mut pay_commits = Vec::new();
+    let needs = |f: &dyn Fn(&Req) -> bool| sc.threads.iter().flatten().any(|q| f(q));
+    let need_plain = needs(&|q| matches!(q, Req::Validate(_)));
+    let need_pay = needs(&|q| matches!(q, Req::PayHv(_)));
     for i in 0..sc.nchan {
         let nn = i + 1;
-        let mut cc = test_chan_ctx(&node_ctx, nn, CHANNEL_VALUE);
+        // ready channels have the dbids 1, 2, 3: `newchan 2` asks for an existing ready channel
+        let mut cc = chan_ctx_by_dbid(&node_ctx, nn as u64);
         let outpoint = bitcoin::OutPoint { txid: funding_tx(nn).compute_txid(), vout: 0 };
         synthesize_setup_channel(&node_ctx, &mut cc, outpoint, 0);
         // commitment 0 (initial), validated sequentially during setup
@@ -277,25 +492,42 @@ fn build_world(sc: &Scenario) -> World {
             })
             .expect("counterparty commitment 0");
         // commitment 1, only prepared: validating it is the concurrent request
-        let mut c1 = channel_commitment(
-            &node_ctx,
-            &cc,
-            1,
-            0,
-            CHANNEL_VALUE - 1000 - 10_000 * (nn as u64),
-            10_000 * (nn as u64),
-            vec![],
-            vec![],
-        );
-        let (s1, h1) = counterparty_sign_holder_commitment(&node_ctx, &cc, &mut c1);
-        commits.push((c1, s1, h1));
+        if need_plain {
+            let mut c1 = channel_commitment(
+                &node_ctx,
+                &cc,
+                1,
+                0,
+                CHANNEL_VALUE - 1000 - 10_000 * (nn as u64),
+                10_000 * (nn as u64),
+                vec![],
+                vec![],
+            );
+            let (s1, h1) = counterparty_sign_holder_commitment(&node_ctx, &cc, &mut c1);
+            commits.push(Some((c1, s1, h1)));
+        } else {
+            commits.push(None);
+        }
+        // commitment 1 with one offered (outgoing) HTLC of PAY_SAT for PAY_HASH
+        if need_pay {
+            let htlc = lightning_signer::tx::tx::HTLCInfo2 {
+                value_sat: PAY_SAT,
+                payment_hash: PaymentHash(PAY_HASH),
+                cltv_expiry: 150,
+            };
+            let mut c1 = channel_commitment(&node_ctx, &cc, 1, 0, CHANNEL_VALUE - 1000 - PAY_SAT, 0, vec![htlc], vec![]);
+            let (s1, h1) = counterparty_sign_holder_commitment(&node_ctx, &cc, &mut c1);
+            pay_commits.push(Some((c1, s1, h1)));
+        } else {
+            pay_commits.push(None);
+        }
         chans.push(cc);
     }
     // an approved keysend for PAY_HASH: enough for one outgoing HTLC of PAY_SAT, not for two
     node_ctx.node.add_keysend(make_test_pubkey(4), PaymentHash(PAY_HASH), PAY_SAT * 1000).expect("keysend approval");
     let stub = if sc.stub {
         // a stub with a larger id than every ready channel
-        let mut cc = test_chan_ctx(&node_ctx, 200, CHANNEL_VALUE);
+        let mut cc = chan_ctx_by_dbid(&node_ctx, 200);
         cc.setup.funding_outpoint = bitcoin::OutPoint { txid: funding_tx(200).compute_txid(), vout: 0 };
         Some(cc)
     } else {
@@ -316,7 +548,7 @@ fn build_world(sc: &Scenario) -> World {
     tx_ctx.add_wallet_input(&node_ctx, SpendType::P2wpkh, 1, 1_000_000);
     tx_ctx.add_wallet_output(&node_ctx, SpendType::P2wpkh, 2, 999_000);
     let tx = tx_ctx.to_tx();
-    World { node_ctx, chans, commits, onchain: (tx, tx_ctx), stub, blocks: std::sync::Mutex::new(Vec::new()), coinbase_ctr }
+    World { node_ctx, chans, commits, pay_commits, onchain: (tx, tx_ctx), stub, blocks: std::sync::Mutex::new(Vec::new()), coinbase_ctr }
 }
 
 fn status_str<T>(r: &Result<T, lightning_signer::util::status::Status>) -> String {
@@ -332,7 +564,7 @@ fn do_req(w: &World, r: &Req) -> String {
         Req::Validate(c) => match w.chans.get(*c) {
             None => "nochan".into(),
             Some(cc) => {
-                let (c1, s1, h1) = &w.commits[*c];
+                let (c1, s1, h1) = w.commits[*c].as_ref().expect("prepared commitment");
                 match validate_holder_commitment(&w.node_ctx, cc, c1, s1, h1) {
                     Ok((p, s)) => format!(
                         "ok {} {}",
@@ -378,6 +610,53 @@ fn do_req(w: &World, r: &Req) -> String {
                 }
             }
         },
+        Req::PayHv(c) => match w.chans.get(*c) {
+            None => "nochan".into(),
+            Some(cc) => {
+                let (c1, s1, h1) = w.pay_commits[*c].as_ref().expect("prepared payment commitment");
+                match validate_holder_commitment(&w.node_ctx, cc, c1, s1, h1) {
+                    Ok((p, _)) => format!("ok {}", &hex::encode(p.serialize())[..8]),
+                    Err(e) => format!("err:{:?}:{}", e.code(), e.message().chars().take(90).collect::<String>()),
+                }
+            }
+        },
+        Req::PayCp1(c) => match w.chans.get(*c) {
+            None => "nochan".into(),
+            Some(cc) => {
+                let r = node.with_channel(&cc.channel_id, |chan| {
+                    let n = chan.enforcement_state.next_counterparty_commit_num;
+                    let point = make_test_pubkey(0x40 + n as u8);
+                    let htlc = lightning_signer::tx::tx::HTLCInfo2 {
+                        value_sat: PAY_SAT,
+                        payment_hash: PaymentHash(PAY_HASH),
+                        cltv_expiry: 150,
+                    };
+                    let received = vec![htlc];
+                    let mut htlcs = lightning_signer::channel::Channel::htlcs_info2_to_oic(&[], &received);
+                    let keys = chan.make_counterparty_tx_keys(&point);
+                    let parameters = chan.make_channel_parameters();
+                    let cparams = parameters.as_counterparty_broadcastable();
+                    let ctx = chan.make_counterparty_commitment_tx(&point, n, 0, 0, CHANNEL_VALUE - 1000 - PAY_SAT, htlcs.clone());
+                    let scripts = build_tx_scripts(
+                        &keys,
+                        CHANNEL_VALUE - 1000 - PAY_SAT,
+                        0,
+                        &mut htlcs,
+                        &cparams,
+                        &chan.keys.pubkeys().funding_pubkey,
+                        &chan.setup.counterparty_points.funding_pubkey,
+                    )
+                    .expect("scripts");
+                    let wit: Vec<Vec<u8>> = scripts.iter().map(|s| s.as_bytes().to_vec()).collect();
+                    let tx = ctx.trust().built_transaction().transaction.clone();
+                    chan.sign_counterparty_commitment_tx(&tx, &wit, &point, n, 0, vec![], received).map(|s| (n, s))
+                });
+                match r {
+                    Ok((n, s)) => format!("ok {} {}", n, &hex::encode(s.serialize_compact())[..8]),
+                    Err(e) => format!("err:{:?}:{}", e.code(), e.message().chars().take(90).collect::<String>()),
+                }
+            }
+        },
         Req::PayCp(c) => match w.chans.get(*c) {
             None => "nochan".into(),
             Some(cc) => {
@@ -419,12 +698,12 @@ fn do_req(w: &World, r: &Req) -> String {
         Req::Forget(c) => {
             let id = match w.chans.get(*c) {
                 Some(cc) => cc.channel_id.clone(),
-                None => ChannelId::new(&200usize.to_le_bytes()),
+                None => ChannelId::new_from_peer_id_and_oid(&PEER, 200),
             };
             status_str(&node.forget_channel(&id))
         }
         Req::ForgetDb(dbid) => {
-            let id = ChannelId::new_from_peer_id_and_oid(&[2u8; 33], *dbid);
+            let id = ChannelId::new_from_peer_id_and_oid(&PEER, *dbid);
             status_str(&node.forget_channel(&id))
         }
         Req::Balance => format!("{:?}", node.channel_balance()),
@@ -455,8 +734,7 @@ fn do_req(w: &World, r: &Req) -> String {
             status_str(&node.add_allowlist(&[addr.to_string()]))
         }
         Req::NewChan(dbid) => {
-            let peer = [2u8; 33];
-            match node.new_channel(*dbid, &peer, node) {
+            match node.new_channel(*dbid, &PEER, node) {
                 Ok((id, slot)) => format!(
                     "ok {} {}",
                     &hex::encode(id.as_slice())[..8],
@@ -574,8 +852,8 @@ fn digest(w: &World) -> String {
             ChannelSlot::Ready(c) => {
                 let es = &c.enforcement_state;
                 s += &format!(
-                    " {}=ready h{} c{} r{} closed={} forget={} bal={:?} chain={:?};",
-                    &hex::encode(id.as_slice())[..4],
+                    " oid{}=ready h{} c{} r{} closed={} forget={} bal={:?} chain={:?};",
+                    id.oid(),
                     es.next_holder_commit_num,
                     es.next_counterparty_commit_num,
                     es.next_counterparty_revoke_num,
@@ -635,7 +913,13 @@ fn thread_index(name: &str) -> usize {
     name.strip_prefix('t').and_then(|s| s.parse().ok()).unwrap_or(99)
 }
 
-fn scheduler_run<F: Fn() + Send + Sync + 'static>(sched: Sched, seed: u64, f: F) -> Result<(), String> {
+struct PreemptShared {
+    points: Arc<std::sync::atomic::AtomicUsize>,
+    drained: Arc<std::sync::Mutex<Vec<lightning_signer::verif_sync::LockEvent>>>,
+    active: Arc<std::sync::atomic::AtomicBool>,
+}
+
+fn scheduler_run<F: Fn() + Send + Sync + 'static>(sched: Sched, seed: u64, ps: &PreemptShared, f: F) -> Result<(), String> {
     let mut config = shuttle::Config::new();
     config.failure_persistence = shuttle::FailurePersistence::None;
     config.max_steps = shuttle::MaxSteps::FailAfter(2_000_000);
@@ -646,6 +930,24 @@ fn scheduler_run<F: Fn() + Send + Sync + 'static>(sched: Sched, seed: u64, f: F)
         }
         Sched::Pct => {
             let s = shuttle::scheduler::PctScheduler::new_from_seed(seed, 3, 1);
+            shuttle::Runner::new(s, config).run(f);
+        }
+        Sched::Preempt => {
+            let first = (seed / 100_000) as usize;
+            let rest = seed % 100_000;
+            let s = PreemptScheduler {
+                first_task: first + 1,
+                first_name: format!("t{}", first),
+                at: (rest % 50_000) as usize,
+                all_points: rest >= 50_000,
+                phase: 0,
+                count: 0,
+                main_blocked: false,
+                executed: false,
+                points: ps.points.clone(),
+                drained: ps.drained.clone(),
+                active: ps.active.clone(),
+            };
             shuttle::Runner::new(s, config).run(f);
         }
     }));
@@ -670,13 +972,20 @@ pub fn run_scenario(sc: &Scenario, sched: Sched, seed: u64, order: Option<Vec<us
     tap_enable(false);
     let _ = tap_take();
     let concurrent = order.is_none();
-    let res = scheduler_run(sched, seed, move || {
+    let ps = PreemptShared {
+        points: Arc::new(std::sync::atomic::AtomicUsize::new(0)),
+        drained: Arc::new(std::sync::Mutex::new(Vec::new())),
+        active: Arc::new(std::sync::atomic::AtomicBool::new(false)),
+    };
+    let active2 = ps.active.clone();
+    let res = scheduler_run(sched, seed, &ps, move || {
         let w = Arc::new(build_world(&sc2));
         if concurrent {
             *cl2.lock().unwrap() = classify(&w);
             // probes above added a keysend/invoice: rebuild nothing, they are part of every run
             // (sequential runs do the same probe below so that the states are comparable)
             tap_enable(true);
+            active2.store(true, std::sync::atomic::Ordering::SeqCst);
             let mut hs = Vec::new();
             for (tid, reqs) in sc2.threads.iter().enumerate() {
                 let (w, reqs, sh) = (w.clone(), reqs.clone(), sh2.clone());
@@ -696,6 +1005,7 @@ pub fn run_scenario(sc: &Scenario, sched: Sched, seed: u64, order: Option<Vec<us
             for h in hs {
                 h.join().unwrap();
             }
+            active2.store(false, std::sync::atomic::Ordering::SeqCst);
             tap_enable(false);
         } else {
             let _ = classify(&w);
@@ -713,9 +1023,11 @@ pub fn run_scenario(sc: &Scenario, sched: Sched, seed: u64, order: Option<Vec<us
         g.completed = true;
     });
     tap_enable(false);
-    let raw = tap_take();
+    let mut raw = std::mem::take(&mut *ps.drained.lock().unwrap());
+    raw.extend(tap_take());
     let mut out = std::mem::take(&mut *shared.lock().unwrap());
     out.trace.clear();
+    out.points = ps.points.load(std::sync::atomic::Ordering::SeqCst);
     if let Err(msg) = res {
         out.completed = false;
         out.failure = Some(msg);
@@ -730,6 +1042,7 @@ pub fn run_scenario(sc: &Scenario, sched: Sched, seed: u64, order: Option<Vec<us
         let n_threads = sc.threads.len();
         let mut cur_req = vec![0usize; n_threads];
         let mut holds_slot = vec![0usize; n_threads];
+        let mut held_now: Vec<Vec<String>> = vec![Vec::new(); n_threads];
         for e in raw.iter() {
             let tid = thread_index(&e.thread);
             if tid >= n_threads {
@@ -771,6 +1084,20 @@ pub fn run_scenario(sc: &Scenario, sched: Sched, seed: u64, order: Option<Vec<us
                 LockEventKind::Released => 'r',
                 LockEventKind::Mark => 'f',
             };
+            if k == 'a' {
+                for h in &held_now[tid] {
+                    if *h != class {
+                        // instance-aware: `slot 0 -> channels` and `channels -> slot 0` form a cycle,
+                        // `channels -> slot 1` does not close it
+                        out.req_edges.push((tid, cur_req[tid], h.clone(), class.clone()));
+                    }
+                }
+                held_now[tid].push(class.clone());
+            } else if k == 'r' {
+                if let Some(p) = held_now[tid].iter().rposition(|c| *c == class) {
+                    held_now[tid].remove(p);
+                }
+            }
             if class.starts_with("slot") {
                 if k == 'a' {
                     holds_slot[tid] += 1;
@@ -847,6 +1174,36 @@ pub fn describe_deadlock(sc: &Scenario, trace: &[Ev], replies: &[(usize, usize, 
                 None => break,
             }
         }
+    }
+    // a thread asking for a lock it holds itself (re-entrant acquisition; the guards are released by the
+    // unwinding afterwards, so this is read off the trace, not off the final state)
+    let relock = {
+        let mut h: Vec<Vec<String>> = vec![Vec::new(); n];
+        let mut found = None;
+        for e in trace {
+            if e.tid >= n {
+                continue;
+            }
+            match e.k {
+                'w' if h[e.tid].contains(&e.class) => {
+                    found = Some((e.tid, e.class.clone()));
+                    break;
+                }
+                'a' => h[e.tid].push(e.class.clone()),
+                'r' => {
+                    if let Some(p) = h[e.tid].iter().rposition(|c| *c == e.class) {
+                        h[e.tid].remove(p);
+                    }
+                }
+                _ => {}
+            }
+        }
+        found
+    };
+    if let Some((t, w)) = relock {
+        let done = replies.iter().filter(|r| r.0 == t).count();
+        let k = sc.threads[t].get(done).map(|r| r.kind()).unwrap_or("?");
+        return (format!("t{}:{}>{} (requests: {})", t, w, w, k), format!("deadlock:self-relock:{}", base(&w)));
     }
     if cycle.is_empty() {
         let desc: Vec<String> = (0..n)
@@ -954,9 +1311,20 @@ pub struct C20 {
     run_cache: RefCell<HashMap<String, RunResult>>,
     /// scenario being scheduled and how many more schedules it gets
     current: RefCell<Option<(Scenario, usize)>>,
+    /// lock-order graph observed so far (class level): (held, acquired) -> a request that did it
+    edge_src: RefCell<BTreeMap<(String, String), (Req, usize, bool)>>,
+    /// class cycles already turned into directed cases
+    cycles_done: RefCell<BTreeSet<Vec<String>>>,
+    /// directed cases waiting to be generated: (cycle id, scenario, scheduler, seed)
+    directed: RefCell<std::collections::VecDeque<(usize, Scenario, Sched, u64)>>,
+    /// directed enumerations that are finished: (cycle id, first thread) exhausted / cycle found
+    directed_stop: RefCell<BTreeSet<(usize, usize)>>,
 }
 
 const SCHEDULES_PER_SCENARIO: usize = 5;
+const DIRECTED_MAX_POINTS: usize = 150;
+const DIRECTED_RANDOM: usize = 200;
+const CORPUS_MAX_POINTS: usize = 60;
 
 fn scenario_lines(sc: &Scenario) -> Vec<String> {
     let mut v = vec![format!("setup {} {}", sc.nchan, if sc.stub { 1 } else { 0 })];
@@ -987,7 +1355,11 @@ fn parse_case(ops: &[String]) -> Option<(Scenario, Sched, u64, Vec<String>)> {
                 sc.threads[tid].push(r);
             }
             "run" => {
-                let s = if *t.get(1)? == "pct" { Sched::Pct } else { Sched::Random };
+                let s = match *t.get(1)? {
+                    "pct" => Sched::Pct,
+                    "preempt" => Sched::Preempt,
+                    _ => Sched::Random,
+                };
                 sched = Some((s, t.get(2)?.parse::<u64>().ok()?));
             }
             "ev" => evs.push(l.clone()),
@@ -1005,9 +1377,19 @@ fn parse_case(ops: &[String]) -> Option<(Scenario, Sched, u64, Vec<String>)> {
 impl C20 {
     /// run the scenario once under (sched, seed) and embed the observed lock trace in the case
     fn make_case(&self, sc: &Scenario, sched: Sched, seed: u64) -> Vec<String> {
+        self.make_case_r(sc, sched, seed).0
+    }
+
+    /// ... also returns (switch points counted by the Preempt scheduler, completed)
+    fn make_case_r(&self, sc: &Scenario, sched: Sched, seed: u64) -> (Vec<String>, usize, bool) {
         let sc = sc.clone();
         let mut ops = scenario_lines(&sc);
-        ops.push(format!("run {} {}", if sched == Sched::Pct { "pct" } else { "random" }, seed));
+        let sname = match sched {
+            Sched::Pct => "pct",
+            Sched::Random => "random",
+            Sched::Preempt => "preempt",
+        };
+        ops.push(format!("run {} {}", sname, seed));
         let r = run_scenario(&sc, sched, seed, None);
         if std::env::var("VERIF_C20_DET").is_ok() {
             let r2 = run_scenario(&sc, sched, seed, None);
@@ -1020,9 +1402,116 @@ impl C20 {
             ops.push(e.line());
         }
         ops.push("end".into());
+        self.lockdep(&sc, &r);
+        let (points, completed) = (r.points, r.completed);
         self.run_cache.borrow_mut().insert(ops.join("\n"), r);
-        ops
+        (ops, points, completed)
     }
+
+    /// Lock-order graph over everything observed so far.  A new cycle of lock classes (length 2 or
+    /// 3) whose edges come from requests outside the known-cyclic kinds is a potential deadlock even if
+    /// no schedule showed it yet: queue directed cases (the requests that produced the edges, one per
+    /// thread) — for two threads the complete single-preemption enumeration in both orders, for three
+    /// threads a batch of random/PCT schedules — so that the deadlock is exhibited as a concrete run.
+    fn lockdep(&self, sc: &Scenario, r: &RunResult) {
+        let mut fresh = Vec::new();
+        {
+            let mut g = self.edge_src.borrow_mut();
+            for (tid, ri, a, b) in &r.req_edges {
+                let req = match sc.threads.get(*tid).and_then(|t| t.get(*ri)) {
+                    Some(q) => q.clone(),
+                    None => continue,
+                };
+                if CYCLIC_KINDS.contains(&req.kind()) {
+                    continue;
+                }
+                let key = (a.clone(), b.clone());
+                if !g.contains_key(&key) {
+                    g.insert(key.clone(), (req, sc.nchan, sc.stub));
+                    fresh.push(key);
+                }
+            }
+        }
+        let g = self.edge_src.borrow();
+        for (a, b) in fresh {
+            let mut cycles: Vec<Vec<(String, String)>> = Vec::new();
+            if g.contains_key(&(b.clone(), a.clone())) {
+                cycles.push(vec![(a.clone(), b.clone()), (b.clone(), a.clone())]);
+            }
+            for ((x, c), _) in g.iter() {
+                if *x == b && *c != a && g.contains_key(&(c.clone(), a.clone())) {
+                    cycles.push(vec![(a.clone(), b.clone()), (b.clone(), c.clone()), (c.clone(), a.clone())]);
+                }
+            }
+            for cyc in cycles {
+                let mut classes: Vec<String> = cyc.iter().map(|e| e.0.clone()).collect();
+                classes.sort();
+                if !self.cycles_done.borrow_mut().insert(classes) {
+                    continue;
+                }
+                let id = self.cycles_done.borrow().len();
+                let srcs: Vec<&(Req, usize, bool)> = cyc.iter().map(|e| &g[e]).collect();
+                let dsc = Scenario {
+                    nchan: srcs.iter().map(|s| s.1).max().unwrap_or(1),
+                    stub: srcs.iter().any(|s| s.2),
+                    threads: srcs.iter().map(|s| vec![s.0.clone()]).collect(),
+                };
+                if std::env::var("VERIF_C20_DBG").is_ok() {
+                    eprintln!("LOCKDEP cycle {:?} -> directed {:?}", cyc, dsc);
+                }
+                let mut q = self.directed.borrow_mut();
+                if dsc.threads.len() == 2 {
+                    for k in 0..DIRECTED_MAX_POINTS {
+                        for first in 0..2 {
+                            q.push_back((id, dsc.clone(), Sched::Preempt, preempt_code(first, true, k)));
+                        }
+                    }
+                } else {
+                    for k in 0..DIRECTED_RANDOM as u64 {
+                        q.push_back((id, dsc.clone(), if k % 2 == 0 { Sched::Pct } else { Sched::Random }, 0x5eed_0000 + k * 7919));
+                    }
+                }
+            }
+        }
+    }
+
+    /// next directed case, if any is pending
+    fn next_directed(&self) -> Option<Vec<String>> {
+        loop {
+            let (id, sc, sched, seed) = self.directed.borrow_mut().pop_front()?;
+            let first = if sched == Sched::Preempt { (seed / 100_000) as usize } else { 9 };
+            {
+                let stop = self.directed_stop.borrow();
+                if stop.contains(&(id, 99)) || stop.contains(&(id, first)) {
+                    continue;
+                }
+            }
+            let (ops, points, completed) = self.make_case_r(&sc, sched, seed);
+            if !completed {
+                // exhibited: no more directed cases for this cycle
+                self.directed_stop.borrow_mut().insert((id, 99));
+            } else if sched == Sched::Preempt && points <= (seed % 50_000) as usize {
+                // the first thread has no such switch point: this order is exhausted
+                self.directed_stop.borrow_mut().insert((id, first));
+            }
+            return Some(ops);
+        }
+    }
+
+    /// complete single-preemption enumeration of a two-thread scenario (both orders), preempting the
+    /// first thread after each of its lock releases
+    fn enumerate_pair(&self, sc: &Scenario, out: &mut Vec<Vec<String>>) {
+        for first in 0..2usize {
+            for k in 0..CORPUS_MAX_POINTS {
+                let (ops, points, _) = self.make_case_r(sc, Sched::Preempt, preempt_code(first, false, k));
+                out.push(ops);
+                if points <= k {
+                    break;
+                }
+            }
+        }
+    }
+
     fn serial_outcomes(&self, sc: &Scenario) -> Vec<(Vec<(usize, usize, String)>, String, bool)> {
         let key = scenario_lines(sc).join("\n");
         if let Some(v) = self.serial_cache.borrow().get(&key) {
@@ -1066,8 +1555,16 @@ impl C20 {
                     Req::NewChan(d) => *d <= hwm && r.final_state.contains(&format!("/oid{}=stub;", d)),
                     _ => false,
                 });
+                // setup_channel made a channel ready although a concurrent forget_channel of its stub was
+                // acknowledged: the channel is alive, unforgotten, at or below the high-water mark
+                let resurrected = sc.threads.iter().flatten().any(|q| matches!(q, Req::SetupChan))
+                    && r.final_state.split(';').any(|seg| {
+                        seg.trim_start().starts_with("oid200=ready") && seg.contains("forget=false") && hwm >= 200
+                    });
                 co.violations.push(Violation {
-                    kind: if reuse {
+                    kind: if resurrected {
+                        "forgotten-channel-resurrected:setup_channel".into()
+                    } else if reuse {
                         "id-reuse:new_channel-after-forget".into()
                     } else if !serial.iter().any(|(_, fin, ok)| *ok && pay_part(fin) == pay_part(&r.final_state)) {
                         // the in-flight payment totals themselves equal no sequential order
@@ -1153,7 +1650,7 @@ fn gen_scenario(rng: &mut Rng) -> Scenario {
         let mut v = Vec::new();
         for _ in 0..len {
             let c = rng.below(nchan as u64) as usize;
-            let r = match rng.below(34) {
+            let r = match rng.below(38) {
                 0..=3 => Req::Validate(c),
                 4 => Req::SignCp(c),
                 5 => Req::SignHolder(c),
@@ -1165,17 +1662,29 @@ fn gen_scenario(rng: &mut Rng) -> Scenario {
                 15..=17 => Req::Keysend(rng.below(3) as u8),
                 18..=20 => Req::Invoice(rng.below(3) as u8),
                 21 => Req::Allow(rng.below(2) as u8),
-                22 => if rng.chance(1, 3) { Req::ForgetDb(rng.range(1, 4) * 50) } else { Req::NewChan(rng.range(1, 4) * 50) },
-                23 => Req::Onchain,
-                24 => Req::SetupChan,
-                25 => Req::SignOnchain,
-                26..=27 => Req::AddBlock(c),
-                28 => Req::RmBlock,
-                _ => Req::PayCp(c),
+                // dbids 1..3 are the ready channels, 200 the stub, 50/100/150 fresh ones
+                22..=23 => {
+                    let d = *rng.pick(&[1u64, 2, 50, 100, 150, 200]);
+                    if rng.chance(1, 3) { Req::ForgetDb(d) } else { Req::NewChan(d) }
+                }
+                24 => Req::Onchain,
+                25 => Req::SetupChan,
+                26 => Req::SignOnchain,
+                27..=28 => Req::AddBlock(c),
+                29 => Req::RmBlock,
+                30..=32 => Req::PayCp(c),
+                33 => Req::PayCp1(c),
+                _ => Req::PayHv(c),
             };
             v.push(r);
         }
         threads.push(v);
+    }
+    // same request issued twice concurrently (check-then-act and lookup/insert races need that)
+    if rng.chance(1, 4) {
+        let dup = threads[0][0].clone();
+        let last = threads.len() - 1;
+        threads[last][0] = dup;
     }
     Scenario { nchan, stub, threads }
 }
@@ -1191,6 +1700,9 @@ impl Group for C20 {
         "non-trivial = at least one thread had to wait for a lock held by another thread (contention in the observed trace) or the schedule did not complete"
     }
     fn gen_case(&self, rng: &mut Rng, _tier: Tier) -> Vec<String> {
+        if let Some(ops) = self.next_directed() {
+            return ops;
+        }
         // several schedules per scenario: the sequential orders of a scenario are executed once
         let sc = {
             let mut cur = self.current.borrow_mut();
@@ -1224,31 +1736,59 @@ impl Group for C20 {
     }
     fn budget(&self, tier: Tier) -> usize {
         match tier {
-            Tier::Quick => 1000,
+            Tier::Quick => 700,
             Tier::Thorough => 50_000,
         }
     }
     fn corpus(&self) -> Vec<Vec<String>> {
-        // targeted scenarios for the known lock-order cycles (finding F11) and for same-channel
-        // read-modify-write races, a few schedules each
-        let scs = vec![
-            Scenario { nchan: 1, stub: false, threads: vec![vec![Req::Forget(0)], vec![Req::Validate(0)]] },
-            Scenario { nchan: 2, stub: true, threads: vec![vec![Req::Forget(1)], vec![Req::Balance]] },
-            Scenario { nchan: 1, stub: false, threads: vec![vec![Req::Heartbeat], vec![Req::NewChan(7)]] },
-            Scenario { nchan: 1, stub: false, threads: vec![vec![Req::AddBlock(0), Req::RmBlock], vec![Req::Validate(0)]] },
-            // invoice approval x keysend approval x balance query x commitment validation (validator_factory vs node_state)
-            Scenario { nchan: 1, stub: false, threads: vec![vec![Req::Invoice(1)], vec![Req::Keysend(1)], vec![Req::Balance]] },
-            Scenario { nchan: 1, stub: false, threads: vec![vec![Req::Invoice(2)], vec![Req::Validate(0)], vec![Req::Keysend(2)]] },
-            // two channels, one approved payment: each signing adds an outgoing HTLC for the same hash
-            Scenario { nchan: 2, stub: false, threads: vec![vec![Req::PayCp(0)], vec![Req::PayCp(1)]] },
-            Scenario { nchan: 3, stub: false, threads: vec![vec![Req::PayCp(0)], vec![Req::PayCp(1)], vec![Req::PayCp(2)]] },
-            Scenario { nchan: 1, stub: true, threads: vec![vec![Req::SetupChan], vec![Req::SignOnchain], vec![Req::Balance]] },
-            Scenario { nchan: 1, stub: false, threads: vec![vec![Req::NewChan(100), Req::ForgetDb(100)], vec![Req::NewChan(50)], vec![Req::NewChan(100)]] },
-            Scenario { nchan: 1, stub: false, threads: vec![vec![Req::NewChan(100), Req::ForgetDb(100)], vec![Req::NewChan(100), Req::NewChan(150)]] },
-            Scenario { nchan: 1, stub: false, threads: vec![vec![Req::Validate(0)], vec![Req::SignCp(0)], vec![Req::SignHolder(0)]] },
-            Scenario { nchan: 2, stub: false, threads: vec![vec![Req::Validate(0), Req::Keysend(1)], vec![Req::Validate(1), Req::Onchain]] },
+        // (1) curated two-thread pairs, complete single-preemption enumeration (the first thread is
+        //     preempted after each of its lock releases, both orders): check-then-act, lookup/insert,
+        //     split read-modify-write and lost-update races need exactly one preemption at the right
+        //     release, and this finds it deterministically.
+        let p = |nchan: usize, stub: bool, a: Req, b: Req| Scenario { nchan, stub, threads: vec![vec![a], vec![b]] };
+        let pairs = vec![
+            // same request twice
+            p(1, false, Req::NewChan(50), Req::NewChan(50)),
+            p(1, true, Req::Forget(9), Req::Forget(9)),
+            p(1, false, Req::Invoice(1), Req::Invoice(1)),
+            p(1, false, Req::Keysend(1), Req::Keysend(1)),
+            p(1, true, Req::SetupChan, Req::SetupChan),
+            p(1, false, Req::Forget(0), Req::Forget(0)),
+            // id reuse
+            p(1, true, Req::ForgetDb(200), Req::NewChan(200)),
+            p(1, false, Req::NewChan(1), Req::Forget(0)),
+            // one approved payment, two channels
+            p(2, false, Req::PayCp(0), Req::PayCp(1)),
+            p(2, false, Req::PayHv(0), Req::PayHv(1)),
+            p(2, false, Req::PayCp1(0), Req::PayCp1(1)),
+            p(2, false, Req::PayCp(0), Req::PayHv(1)),
+            // same channel read-modify-write
+            p(1, false, Req::Validate(0), Req::SignCp(0)),
+            p(1, false, Req::Validate(0), Req::SignHolder(0)),
+            p(1, false, Req::PayCp(0), Req::Validate(0)),
+            // map / tracker / ledger users against each other
+            p(1, true, Req::SetupChan, Req::NewChan(50)),
+            p(1, true, Req::SetupChan, Req::Forget(9)),
+            p(1, true, Req::SetupChan, Req::AddBlock(0)),
+            p(1, true, Req::SetupChan, Req::Heartbeat),
+            p(1, false, Req::Heartbeat, Req::Forget(0)),
+            p(1, false, Req::Onchain, Req::Onchain),
+            p(1, false, Req::SignOnchain, Req::Forget(0)),
+            p(1, false, Req::AddBlock(0), Req::Forget(0)),
         ];
         let mut out = Vec::new();
+        for sc in &pairs {
+            self.enumerate_pair(sc, &mut out);
+        }
+        // (2) three-thread scenarios and the known slot<->monitor cycle under random/PCT schedules
+        let scs = vec![
+            Scenario { nchan: 1, stub: false, threads: vec![vec![Req::AddBlock(0), Req::RmBlock], vec![Req::Validate(0)]] },
+            Scenario { nchan: 1, stub: false, threads: vec![vec![Req::Invoice(1)], vec![Req::Keysend(1)], vec![Req::Balance]] },
+            Scenario { nchan: 1, stub: false, threads: vec![vec![Req::Invoice(2)], vec![Req::Validate(0)], vec![Req::Keysend(2)]] },
+            Scenario { nchan: 3, stub: false, threads: vec![vec![Req::PayCp(0)], vec![Req::PayCp(1)], vec![Req::PayHv(2)]] },
+            Scenario { nchan: 1, stub: true, threads: vec![vec![Req::SetupChan], vec![Req::SignOnchain], vec![Req::Balance]] },
+            Scenario { nchan: 1, stub: false, threads: vec![vec![Req::NewChan(100), Req::ForgetDb(100)], vec![Req::NewChan(50)], vec![Req::NewChan(100)]] },
+        ];
         for sc in &scs {
             for seed in 1..=8u64 {
                 out.push(self.make_case(sc, if seed % 2 == 0 { Sched::Pct } else { Sched::Random }, seed * 7919));
@@ -1272,5 +1812,5 @@ pub fn try_req() {
 }
 
 pub fn groups() -> Vec<Box<dyn Group>> {
-    vec![Box::new(C20 { serial_cache: RefCell::new(HashMap::new()), run_cache: RefCell::new(HashMap::new()), current: RefCell::new(None) })]
+    vec![Box::new(C20 { serial_cache: RefCell::new(HashMap::new()), run_cache: RefCell::new(HashMap::new()), current: RefCell::new(None), edge_src: RefCell::new(BTreeMap::new()), cycles_done: RefCell::new(BTreeSet::new()), directed: RefCell::new(Default::default()), directed_stop: RefCell::new(BTreeSet::new()) })]
 }
